@@ -18,12 +18,16 @@ type StructOpt struct {
 	TypeOK   func(*progen.Type) bool
 	Enumerated []*progen.Type // extra fixed types (bounded-exhaustive slices)
 	EnumFn     func(env *progen.Env) []*progen.Type // extra types computed from the environment
+	EnumChunks bool           // every other subject takes its types from the bounded-exhaustive enumeration (fixed environment)
 	TopShapes  bool           // wrap most drawn types in a top-level pointer / slice / map (DeepCopy's argument forms)
 }
 
 // DrawStructural draws an environment and NTypes distinct argument types and emits the wrappers
 // for the requested roles.
 func DrawStructural(rt *rapid.T, o StructOpt) *Subject {
+	if o.EnumChunks && !o.Env.UserMethods && rapid.Bool().Draw(rt, "enumerated-chunk") {
+		return drawEnumerated(rt, o)
+	}
 	env := progen.DrawEnv(rt, o.Env)
 	p := progen.NewProg(env)
 	s := &Subject{Prog: p}
@@ -32,6 +36,13 @@ func DrawStructural(rt *rapid.T, o StructOpt) *Subject {
 	depth := o.Depth
 	if depth == 0 {
 		depth = 3
+	}
+	// a user method implemented by deriveEqualM<Name>(a, b *Name) already names the function for (*Name, *Name)
+	for _, d := range env.Structs {
+		if d.UserEqual == "derive" {
+			pt := progen.PtrTo(progen.NamedT(d))
+			used.Claim(ukey("equal", pt, pt))
+		}
 	}
 	seen := map[string]bool{}
 	var types []*progen.Type
@@ -119,6 +130,14 @@ func AddRoles(p *progen.Prog, used progen.Used, e *Entry, t *progen.Type, id str
 	for _, role := range roles {
 		switch role {
 		case "equal":
+			if t.Kind == progen.Ptr && t.Elem.Kind == progen.Named && t.Elem.Decl.UserEqual == "derive" {
+				// same name and same types as the call inside the user's method: one generated function
+				c := progen.Equal(ts, "M"+t.Elem.Decl.Name)
+				w := "EqualVia" + id
+				p.Add("%s", c.Render(progen.FormBody, w))
+				e.Funcs[role] = w
+				continue
+			}
 			addCall(p, used, e, role, progen.Equal(ts, id), ukey("equal", t, t))
 		case "equalc":
 			addCall(p, used, e, role, progen.EqualCurried(ts, id), ukey("equal", t))
@@ -236,4 +255,55 @@ func addCtx(p *progen.Prog, used progen.Used, e *Entry, t *progen.Type, id, plug
 	mt := progen.MapOf(progen.B("string"), t)
 	mk(pre+"ctx:map", "Ma", mt, ukey(plugin, mt, mt), "map[string]"+ts+"{\"k\": a}", "map[string]"+ts+"{\"k\": b}", "")
 	mk(pre+"ctx:ptr", "Pt", progen.PtrTo(t), ukey(plugin, progen.PtrTo(t), progen.PtrTo(t)), "&a", "&b", "")
+}
+
+// drawEnumerated builds a subject from a drawn chunk of the bounded-exhaustive type enumeration
+// (all type expressions to constructor depth 2, in thorough runs depth 3, over the fixed environment).
+func drawEnumerated(rt *rapid.T, o StructOpt) *Subject {
+	env := progen.FixedEnv()
+	if o.Env.ExportedOnly || o.Env.NoPrivateExt {
+		// the fixed environment has unexported fields: callers that cannot use them do not enable EnumChunks
+	}
+	depth := 2
+	if rapid.IntRange(0, 3).Draw(rt, "enum-depth3") == 0 {
+		depth = 3
+	}
+	all := progen.Enumerate(env, depth)
+	n := o.NTypes
+	if n <= 0 {
+		n = 14
+	}
+	start := rapid.IntRange(0, len(all)-1).Draw(rt, "enum-start")
+	p := progen.NewProg(env)
+	s := &Subject{Prog: p}
+	used := progen.Used{}
+	p.Add("var Anchor = 0\n")
+	seen := map[string]bool{}
+	count := 0
+	for i := 0; count < n && i < len(all); i++ {
+		t := all[(start+i)%len(all)]
+		if o.TopShapes {
+			u := t.Under()
+			if u.Kind != progen.Ptr && u.Kind != progen.Slice && u.Kind != progen.Map {
+				t = progen.PtrTo(t)
+			}
+		}
+		k := progen.AssignKey(t)
+		if seen[k] || (o.TypeOK != nil && !o.TypeOK(t)) {
+			continue
+		}
+		seen[k] = true
+		id := fmt.Sprintf("T%d", count)
+		count++
+		e := s.NewEntry(id, t)
+		e.Tags["enumerated"] = "1"
+		if t.Comparable() {
+			e.Tags["comparable"] = "1"
+		}
+		if t.Kind == progen.Basic && t.OrderedBasic() {
+			e.Tags["basic-ordered"] = "1"
+		}
+		AddRoles(p, used, e, t, id, o.Roles)
+	}
+	return s
 }
